@@ -35,6 +35,7 @@ NlPool(f) ==
 
 MpFams == {"ipv6-unicast", "ipv4-labelled-unicast", "l3vpn-ipv4-unicast", "l3vpn-ipv6-multicast"}
 MpPool == UNION {{MpA(t, f, nl) : t \in MpKinds, nl \in NlPool(f)} : f \in MpFams}
+          \cup UNION {{MpN(f, <<NL(0, IF FamClass(f) = "ip" THEN 0 ELSE 1)>>, nh) : nh \in NhKindsOf(f) \ {0}} : f \in MpFams}
 
 BodyNl == {<<>>, <<NL(0, 0)>>, <<NL(8, 0), NL(25, 0), NL(32, 0)>>}
 
@@ -98,6 +99,12 @@ D_MutSensitive ==
 D_TruncOverruns ==
   (mut.m = "trunc" /\ mut.cur > 0) =>
     LET r == ReadMsg(Mutated, o) IN OverrunR(Mutated, r) \/ ~WellFormedR(Mutated, r, o)
+
+(* the writer's next-hop field has a length the property layer expects *)
+D_NextHop == (mut = NoMut /\ s.k = "update") =>
+  LET r == ReadMsg(Bytes, o) IN
+  \A i \in 1..Len(s.attrs) :
+     s.attrs[i].t = "mpreach" => r.body.inner[i].nhl \in ExpNhLens(s.attrs[i].fam, s.attrs[i].n)
 
 (* the oracle never calls an untouched message overrun *)
 D_NoSpuriousOverrun == mut = NoMut => ~Overrun(Bytes, o)
